@@ -56,7 +56,7 @@ class St:
 
 
 class Obligation:
-    __slots__ = ('name', 'hyps', 'goal', 'trace', 'kind', 'unit', 'result', 'ms', 'backend', 'model', 'detail')
+    __slots__ = ('name', 'hyps', 'goal', 'trace', 'kind', 'unit', 'result', 'ms', 'backend', 'model', 'detail', 'isolated')
 
     def __init__(self, name, hyps, goal, trace, kind='assert'):
         self.name, self.hyps, self.goal, self.trace, self.kind = name, hyps, goal, trace, kind
@@ -66,6 +66,7 @@ class Obligation:
         self.backend = None
         self.model = None
         self.detail = None
+        self.isolated = False       # True: solved in a z3 context of its own (solve._check)
 
 
 # ------------------------------------------------------------------ python-level values
@@ -1892,6 +1893,12 @@ class SeqIter:
         if ex.feasible(s_stop):
             outs.append(('stop', s_stop, None))
         if ex.feasible(s_item):
+            if self.seq.sort() == SeqV and not z3.is_int_value(i):
+                # instance, at (this sequence, this index), of the lemma "prefix extension" proved on every run by unit AX:lemma(seq) (contracts/axioms.py):
+                # s[:i+1] == s[:i] ++ [s[i]] for 0 <= i < len(s).  A theorem of the sequence theory, so it excludes no state; it is handed to the solver because
+                # z3's sequence solver finds it by itself only erratically (0.1 s .. > 60 s on the identical query, by build, seed and load), and a loop invariant
+                # over `for x in seq` that speaks of the prefix consumed so far needs exactly this step.  (i < len(s) is the path condition of this branch.)
+                s_item.assume(z3.Implies(i >= 0, V.prefix_extension(self.seq, i)))
             outs.append(('item', s_item, self.seq[i]))
         return outs
 
